@@ -331,7 +331,9 @@ class RuntimeState(utils.NiceRepr):
         # When enabling a report flag, toggle all others off
         if state is None:
             state = self._global_state
-        for k in state.keys():
+        # The known report styles are the keys of the persistent state (an
+        # inline state only holds what differs from it).
+        for k in list(self._global_state.keys()):
             if k.startswith('REPORT_'):
                 state[k] = False
         state['REPORT_' + reportchoice.upper()] = True
@@ -364,7 +366,7 @@ class RuntimeState(utils.NiceRepr):
 
                 if action == 'set_report_style':
                     # Special handling of report style
-                    self.set_report_style(key.replace('REPORT_', ''))
+                    self.set_report_style(key.replace('REPORT_', ''), state=state)
                 elif action == 'assign':
                     state[key] = value
                 elif action == 'set.add':
